@@ -31,7 +31,7 @@ def enum_values(p):
     return vals
 
 
-def kinds_schema(byte_order="littleEndian", package=None):
+def kinds_schema(byte_order="littleEndian", package=None, presmix=True):
     ts = [std_header(), std_group_dim(), std_var_data(), std_var_data("varStrEncoding", "uint16", "char")]
     for p in ALL:
         mn, mx, nl = EXPLICIT[p]
@@ -114,6 +114,18 @@ def kinds_schema(byte_order="littleEndian", package=None):
     ms.append(Msg("prims_rev", 10, flds))
     ms.append(Msg("prims_rev_g", 11, [Field("r", nid(), "uint8")],
                   [Group("g", nid(), [Field("w_" + p, nid(), p, presence=("optional" if i % 2 else None)) for i, p in enumerate(rev)])]))
+    if presmix:
+        # field presence that disagrees with the encoding's: sbeppc resolves it silently (a <type>'s own presence wins, a set is
+        # always required, an optional enum is required, composites keep the field's) -- such a field is an ordinary member
+        # and every view of it (accessors, cursor, visit, by tag, sizes) has to agree (mutant c19e: dropped by visit only)
+        ms.append(Msg("presmix", 12, [Field("p_tc", nid(), "T_uint16", presence="constant"), Field("a1", nid(), "uint8"),
+                                      Field("p_oc", nid(), "O_int32", presence="constant"), Field("p_or", nid(), "O_int32", presence="required"),
+                                      Field("p_to", nid(), "T_uint16", presence="optional"), Field("a2", nid(), "uint16"),
+                                      Field("p_sc", nid(), "S_16", presence="constant"), Field("p_so", nid(), "S_8", presence="optional"),
+                                      Field("p_eo", nid(), "E_uint8", presence="optional"), Field("p_co", nid(), "C_small", presence="optional"),
+                                      Field("tail", nid(), "uint32")],
+                      [Group("g", nid(), [Field("q_sc", nid(), "S_8", presence="constant"), Field("q_tc", nid(), "T_uint16", presence="constant"),
+                                          Field("z", nid(), "uint8")])]))
     tag = "le" if byte_order == "littleEndian" else "be"
     return Schema(package or ("kinds_" + tag), ts, ms, id=9, version=4, byte_order=byte_order, desc="kinds", sem_version="1.0")
 
